@@ -14,7 +14,42 @@ impl AnySink {
     fn s(&self) -> &dyn MetricSink { match self { AnySink::Plain(x) => x, AnySink::Buffered(x) => x } }
 }
 
+/// case `udp=<buffered 0|1>`: the UDP sinks against real loopback sockets, with the receiver going away and
+/// coming back: (1) a datagram is sent while NOBODY listens on the destination port (the kernel answers
+/// with an ICMP error, which an unconnected UDP socket never sees), (2) a receiver binds the port again,
+/// (3) the next metric must be handed to the socket and arrive, whole and alone. C13: every emit/flush puts
+/// the metric bytes on the wire to the address given at construction; earlier losses do not change that.
+fn udp_case(buffered: bool) -> Vec<(String, String)> {
+    use cadence::{BufferedUdpMetricSink, UdpMetricSink};
+    use std::net::UdpSocket;
+    let mut fails = vec![];
+    let probe = match UdpSocket::bind("127.0.0.1:0") { Ok(s) => s, Err(_) => return fails };
+    let port = match probe.local_addr() { Ok(a) => a.port(), Err(_) => return fails };
+    drop(probe); // nobody listens on the port now
+    let sock = match UdpSocket::bind("127.0.0.1:0") { Ok(s) => s, Err(_) => return fails };
+    let sink: Box<dyn MetricSink> = if buffered {
+        match BufferedUdpMetricSink::with_capacity(("127.0.0.1", port), sock, 64) { Ok(s) => Box::new(s), Err(_) => return fails }
+    } else {
+        match UdpMetricSink::from(("127.0.0.1", port), sock) { Ok(s) => Box::new(s), Err(_) => return fails }
+    };
+    let _ = sink.emit("lost:1|c");
+    let _ = sink.flush();
+    std::thread::sleep(Duration::from_millis(100)); // let the ICMP answer arrive
+    let rx = match UdpSocket::bind(("127.0.0.1", port)) { Ok(s) => s, Err(_) => return fails }; // port taken meanwhile: no verdict
+    let _ = rx.set_read_timeout(Some(Duration::from_secs(2)));
+    let r1 = sink.emit("kept:2|c");
+    let r2 = sink.flush();
+    let mut buf = [0u8; 256];
+    let got = rx.recv(&mut buf).ok().map(|n| String::from_utf8_lossy(&buf[..n]).to_string());
+    let want = if buffered { "kept:2|c\n" } else { "kept:2|c" };
+    if got.as_deref() != Some(want) {
+        fails.push(("C13".to_string(), format!("after an earlier datagram was lost (no receiver), the next metric must still be handed to the socket: emit -> {:?}, flush -> {:?}, receiver got {:?}, expected {:?}", r1.map_err(|e| e.kind()), r2.map_err(|e| e.kind()), got, want)));
+    }
+    fails
+}
+
 pub fn run_case(s: &str) -> Result<Vec<(String, String)>, String> {
+    if let Some(v) = s.strip_prefix("udp=") { return Ok(udp_case(v.starts_with('1'))); }
     let (mut buf, mut cap, mut link, mut ops) = (false, 16usize, false, vec![]);
     for kv in s.split(';') {
         let mut it = kv.splitn(2, '=');
@@ -122,6 +157,12 @@ pub fn check(buffered: bool, cap: usize, link: bool, ops: &[String]) -> Vec<(Str
 }
 
 pub fn search(prop: &str, seed: u64, budget: u64) -> Option<(String, Vec<(String, String)>)> {
+    if prop == "C13" {
+        for b in ["1", "0"] {
+            let f = udp_case(b == "1");
+            if !f.is_empty() { return Some((format!("udp={}", b), f)); }
+        }
+    }
     let mut rng = Rng::new(seed);
     for _ in 0..budget.min(150) {
         let buffered = rng.below(2) == 1;
